@@ -1145,7 +1145,9 @@ func VerifC11InterpTx(c C11TxCase, run C11Runner) (v kit.Verdict) {
 			return v.Failf("body panicked but the driver saw %d Commit(s) (%s)", commits, describe())
 		case rollbacks != 1:
 			return v.Failf("body panicked: want exactly one Rollback, driver saw %d (%s)", rollbacks, describe())
-		case !panicked && res == nil:
+		case !panicked && res == nil && returnedToCaller:
+			// (!returnedToCaller: a panic(nil), which recover() cannot see under go 1.19 semantics,
+			// unwound the caller's frames - the caller learnt of it through the panic)
 			return v.Failf("body panicked but the caller learnt nothing: Transact returned nil and did not panic (%s)", describe())
 		case !historyOK("rollback"):
 			return v.Failf("body panicked: driver history differs from begin, statements %v, rollback (%s)", executed, describe())
@@ -3001,10 +3003,12 @@ func VerifC11InterpHist(t *testing.T, c C11HistCase, mk func(db *sql.DB) C11Hist
 			if shedCount > 0 {
 				seenAfterShed++
 			}
-			if panicked {
+			if panicked && !(outcome == "panic" && op.K != "exec" && op.K != "query") {
 				fail = fmt.Sprintf("%s: the caller got a panic (%s)", what, desc)
 				return
 			}
+			// a panicking transaction body: "the caller learns of it (an error or the panic)" -
+			// a panic that reaches the caller after the rollback is as good as an error
 			switch op.K {
 			case "exec", "query":
 				classes["executed:"+op.K] = true
@@ -3043,9 +3047,9 @@ func VerifC11InterpHist(t *testing.T, c C11HistCase, mk func(db *sql.DB) C11Hist
 					fail = fmt.Sprintf("%s: body returned %q but Transact returned nil (%s)", what, returned, desc)
 				case outcome == "err" && !op.FR && !errors.Is(err, returned):
 					fail = fmt.Sprintf("%s: body returned %q, Rollback succeeded, Transact returned another error (%s)", what, returned, desc)
-				case outcome == "panic" && err == nil:
+				case outcome == "panic" && err == nil && !panicked:
 					fail = fmt.Sprintf("%s: body panicked but the caller learnt nothing (%s)", what, desc)
-				case err == nil && !(commits == 1 && rollbacks == 0 && !op.FC):
+				case err == nil && !panicked && !(commits == 1 && rollbacks == 0 && !op.FC):
 					fail = fmt.Sprintf("%s: nil result without exactly one successful Commit (%s)", what, desc)
 				}
 			}
